@@ -708,7 +708,8 @@ impl Prop for C07 {
             let k = rng.range(1, max) as usize;
             let mut specs = Vec::new();
             for i in 0..k {
-                let key = rng.below(if rng.bool() { 1 } else { 3 });
+                let nkeys = if rng.bool() { 1 } else { 3 };
+                let key = rng.below(nkeys);
                 let dec = *rng.pick(&["allow", "allow", "allow", "deny", "badsig"]);
                 let stop = if rng.chance(1, 2) { "-" } else { *rng.pick(STOPS) };
                 let how = if rng.bool() { "rst" } else { "fin" };
